@@ -709,7 +709,12 @@ def tools_bin(name):
 def tlc_simple(name, module, cfg, tier, env=None, workers=None, timeout=3600):
     """run a self-contained spec, cached on the tool hash -> parsed output"""
     d = vlib.famdir(name, tier)
-    key = "tlc:%s:%s" % (vlib.tool_hash(), cfg)
+    import hashlib
+    envh = hashlib.sha256()
+    for k_, v_ in sorted((env or {}).items()):
+        envh.update(k_.encode())
+        envh.update(open(v_, "rb").read() if os.path.exists(v_) else v_.encode())
+    key = "tlc:%s:%s:%s" % (vlib.tool_hash(), cfg, envh.hexdigest()[:16])
     out = os.path.join(d, "tlc.out")
     pj = out + ".json"
     if vlib.cached(d, "tlc", key) and os.path.exists(pj):
@@ -1369,7 +1374,7 @@ def check_C16(tier, seed, replay):
     # behaviour through the macro route (peginate!) against the library route, same grammars
     runs, cov = machine_runs("C16", ["routes"], tier, seed, replay) if False else (None, None)
     cdir, gs = vlib.build_corpus("routes", tier, seed)
-    real = vlib.harness_outcomes("routes", tier, seed, cdir, extra_deps='peginator_macro = { path = "%s/macro" }' % vlib.REPO)
+    real = vlib.harness_outcomes("routes", tier, seed, cdir, extra_deps='peginator_macro = { path = "@REPO@/macro" }')
     if not real["build_ok"]:
         res.add(Violation("C16", "MacroRoute", "the parsers expanded by peginate! (or generated by the library) for the route "
                           "grammars do not compile: %s" % real["build_err"][-1500:], None, {"site": "macro-build"}))
@@ -1557,18 +1562,25 @@ def check_C03(tier, seed, replay):
                                                          "grammar": peg.grammar_text(by_id[gid])}))
         if ok:
             break
-        bad = set(re.findall(r"/(ty_\d+)\.(?:user\.)?rs", err))
-        bad -= set(dropped)
+        # rustc's stderr as blocks (one per diagnostic); a block belongs to the grammars whose files it points into
+        blocks = re.split(r"\n(?=error)", err)
+        per = {}
+        for b in blocks:
+            if not b.startswith("error"):
+                continue
+            for gid in set(re.findall(r"/(ty_\d+)\.(?:user\.)?rs", b)):
+                per.setdefault(gid, []).append(b)
+        bad = set(per) - set(dropped)
         if not bad or build_rounds > 6:
             raise ToolError("the types family does not build and the errors cannot be attributed:\n%s" % err[-3000:])
         for gid in sorted(bad):
-            first = next((l for l in err.split("\n") if l.startswith("error")), "")
-            m = re.search(r"(error[^\n]*\n(?:[^\n]*\n){0,6}?[^\n]*/%s\.(?:user\.)?rs[^\n]*)" % gid, err)
-            dropped[gid] = ("rustc", (m.group(1) if m else first)[:600])
+            b = per[gid][0]
+            dropped[gid] = ("rustc", b[:700])
             g = by_id[gid]
-            which = "exact-type assertions" if re.search(r"/%s\.user\.rs" % gid, err) and not re.search(r"/%s\.rs" % gid, err) else "generated code"
-            res.add(Violation("C03", "Compiles" if which == "generated code" else "TypeMapping",
-                              "%s of grammar %s do not compile: %s" % (which, g.meta["shape"], dropped[gid][1]), None,
+            in_user = bool(re.search(r"/%s\.user\.rs" % gid, b)) and not re.search(r"/%s\.rs" % gid, b)
+            which = "exact-type assertions" if in_user else "generated code"
+            res.add(Violation("C03", "TypeMapping" if in_user else "Compiles",
+                              "%s of grammar %s do not compile: %s" % (which, g.meta["shape"], b[:500]), None,
                               {"name": g.meta["shape"], "site": g.meta.get("local_name", g.meta["shape"]), "grammar": peg.grammar_text(g),
                                "expected_types": tables[gid]}))
     # no `unsafe` in generated code (the crate also forbids it)
